@@ -27,7 +27,7 @@ pub static DEF: PropDef = PropDef {
 	real: LIB_REAL,
 	stub: LIB_STUB,
 	assumptions: &["error texts are not compared (the statement does not require it)", "inputs stay below 2 MiB (detection above that is excluded by the statement)"],
-	expected_probes: &["family.tokens", "family.valid", "family.mutant", "family.random", "family.utf16_32", "family.dupkeys", "verdict.ok", "verdict.err", "cut_inside_first_document"],
+	expected_probes: &["family.tokens", "family.valid", "family.mutant", "family.random", "family.utf16_32", "family.dupkeys", "family.boundary_utf8", "verdict.ok", "verdict.err", "cut_inside_first_document"],
 	needs_bins: false,
 	watchdog_s: 30,
 };
@@ -129,6 +129,12 @@ fn gen(seed: u64, idx: u64, t: Tier) -> J {
 			bytes = format!("{{{}}}", body.join(", ")).into_bytes();
 			f = Fmt::Json;
 			family = "dupkeys";
+		} else if fam < 65 {
+			// A multi-byte character that starts just before an 8 KiB / 16 KiB buffer edge.
+			let fm = *r.pick(&[Fmt::Json, Fmt::Yaml, Fmt::Toml]);
+			bytes = gen::boundary_text(&mut r, fm);
+			f = fm;
+			family = "boundary_utf8";
 		} else if fam < 68 {
 			let n = r.range(0, 40);
 			bytes = (0..n).map(|_| r.next() as u8).collect();
@@ -180,6 +186,7 @@ fn gen(seed: u64, idx: u64, t: Tier) -> J {
 			break s;
 		}
 	};
+	let sched = if family == "boundary_utf8" && r.chance(1, 2) { Sched::bytes(*r.pick(&[8192u32, 4096, 16384, 8191, 8193, 1000])) } else { sched };
 	let mut sc = Scenario::new(to, vec![Call::reader(bytes, from, sched)]);
 	set_param(&mut sc, "family", json!(family));
 	sc.to_json()
@@ -200,6 +207,7 @@ fn eval(case: &J) -> Eval {
 			"utf16_32" => "family.utf16_32",
 			"depth" => "family.depth",
 			"dupkeys" => "family.dupkeys",
+			"boundary_utf8" => "family.boundary_utf8",
 			_ => "family.other",
 		},
 		1,
